@@ -232,7 +232,9 @@ class extract_visitor(NodeVisitor):
                 else:
                     fh.add_name(AssignedName(h.name, body_loc(h.body), np(h), h.type))  # type: ignore[arg-type]
             if h.type:
-                self.visit(h.type)
+                # evaluated when the exception arrives: after (part of) the
+                # try body has run
+                fh = self.visit_in_flow(h.type, fh)
             handlers.append(self.visit_in_flow(h.body, fh))
 
         orelse = self.visit_in_flow(node.orelse,
